@@ -12,9 +12,10 @@ SPEC = {
     'deductive': [
         ('label-genericity(next)', 'next', '^wiring:'),
         ('label-genericity(trans)', 'trans', '^trans:formula'),
-        ('label-genericity(upsert keys)', 'upsert', '^upsert:absent')],
+        ('label-genericity(upsert keys)', 'upsert', '^upsert:absent'),
+        ("label-genericity(_match_states)", 'match_states', r'^cover:')],
     'bounded': [
-        ('transformations', suites.case_C16, 400, 8000, RULE + '; ' + 'non-trivial = best path has >= 2 states; transformations: pure renaming, reorder, axis swap, scale 2^k for k in {-8,-3,-1,1,3,10,20}, translation by representable offsets (no pruning)', '')],
+        ('transformations', suites.case_C16, 1500, 25000, RULE + '; ' + 'non-trivial = best path has >= 2 states; transformations: pure renaming, reorder, axis swap, scale 2^k for k in {-8,-3,-1,1,3,10,20}, translation by representable offsets (no pruning)', '')],
 }
 
 
